@@ -86,7 +86,7 @@ def resolve (results : Array Res) (s : String) : Option Nat :=
       | _ => none
   | _ => none
 
-inductive POp | op (o : Op) | gibbs (a : Nat) (sweeps : Nat) | skip
+inductive POp | op (o : Op) | gibbs (a : Nat) (sweeps : Nat) | skip | cfg
 
 def parseOp (results : Array Res) (s : String) : Option POp :=
   match s.splitOn ":" with
@@ -102,6 +102,9 @@ def parseOp (results : Array Res) (s : String) : Option POp :=
                     | some a, some b => some (.op (.apply a b)) | _, _ => some .skip)
   | ["j", os] => (match (os.splitOn ",").mapM (resolve results) with
                   | some as => some (.op (.mkjoint as)) | none => some .skip)
+  -- configuration step of the harness (`enable_FD` / `disable_FD`): not an operation of the property; no modelled
+  -- operation reads or writes the finite-difference option, so the heap is unchanged
+  | ["F", _, _] => some .cfg
   | ["G", o, n] => (match resolve results o, n.toNat? with
                     | some a, some k => some (.gibbs a k) | none, some _ => some .skip | _, _ => none)
   | _ => none
@@ -152,6 +155,7 @@ def stepOp (n0 : Nat) (fp0 : List String) (acc : PAcc) (txt : String) : PAcc :=
   match parseOp acc.results txt with
   | none => { acc with bad := true }
   | some .skip => { acc with results := acc.results.push .err, outs := acc.outs.push "skip" }
+  | some .cfg => { acc with results := acc.results.push .unit, outs := acc.outs.push "cfg" }
   | some (.op o) =>
     let (s1, r) := acc.s.run o
     let made := match r with
